@@ -1,5 +1,6 @@
 """C10 - restarting from persisted state is safe at every crash point (structural part)."""
 from engine import *
+import linforms
 import obligations
 import provenance
 import guards
@@ -433,3 +434,4 @@ RULES.append(('10.t', 'identity comparisons: every reviewed (function, identity 
 RULES.append(('10.M', 'collection mutations: every reviewed (function, stored collection, mutator class: add / remove / filter / empty / swap / order) triple is still present - an entry that is no longer removed, inserted or drained on one path (rules/mutations.py)', lambda F: mutations.for_property(F, 'C10', '10.M')))
 RULES.append(('10.E', 'event replay: the count of events drained from pending_events (ChannelManager, ChannelMonitor, ChainMonitor; sync and async expansions) is advanced only on the Ok arm of the handler result - an event whose handler failed stays queued and is replayed (rules/eventloops.py)', lambda F: eventloops.rule(F, '10.E', r'.', 5)))
 RULES.append(('10.G', 'guard census: no reviewed call of a workspace function and no reviewed mutation of a stored collection gained a controlling branch condition (an added `&& cond`, early return / continue, more specific match arm in front of an act); counts per call site, name free (rules/guards.py)', lambda F: guards.for_property(F, 'C10', '10.G')))
+RULES.append(('10.K', 'constant census of linear forms: every comparison (normalised to sum >= K over name-free atoms, a comparison and its negation being one form) and every maximal arithmetic expression of a reviewed function keeps its coefficients and its constant - a dropped or added `+ 1` / `- 1`, `<` for `<=` inside a computed bound, a scale factor applied twice or not at all, swapped operands of a comparison (rules/linforms.py; shapes that appear or disappear are not judged, the guard / arithmetic censuses judge those)', lambda F: linforms.for_property(F, 'C10', '10.K')))
